@@ -41,6 +41,17 @@ func newTraversal(variable string) traversal {
 	}
 }
 
+// clone copies the accumulated slices, alternatives of a path must never extend a shared backing array
+func (t traversal) clone() traversal {
+	return traversal{
+		variable:      t.variable,
+		counter:       t.counter,
+		rego:          append(make([]string, 0, len(t.rego)+4), t.rego...),
+		pathVariables: append(make([]string, 0, len(t.pathVariables)+2), t.pathVariables...),
+		paths:         append(make([]string, 0, len(t.paths)+1), t.paths...),
+	}
+}
+
 func internalResultToTraversal(p traversal, r regoPathResultInternal) traversal {
 	return traversal{
 		variable:      p.variable,
@@ -200,6 +211,8 @@ func traverseAnd(and path.AndPath, t traversal, fetchNodes bool, iriExpander *mi
 }
 
 func traverseProperty(property path.Property, t traversal, fetchNodes bool, iriExpander *misc.IriExpander) []regoPathResultInternal {
+	// the same traversal is handed to every alternative of an OR, each step works on its own copy
+	t = t.clone()
 	if property.IsCustom(iriExpander) {
 		return traverseCustomProperty(property, t, fetchNodes, iriExpander)
 	} else {
